@@ -5,6 +5,8 @@ base = json.load(open("/root/.vp/BASELINE.json"))
 fd, path = tempfile.mkstemp(suffix=".xml"); os.close(fd)
 env = dict(os.environ); env.pop("AMARANTH_VERIF", None)
 cmd = base["cmd"].replace("<file>", path)
+if len(sys.argv) > 1:
+    cmd = cmd.replace("cd /repo", "cd " + sys.argv[1])
 subprocess.run(cmd, shell=True, env=env, stdout=subprocess.DEVNULL, stderr=subprocess.DEVNULL)
 passed = set()
 for tc in ET.parse(path).getroot().iter("testcase"):
